@@ -431,6 +431,34 @@ func (w *SrvWorld) relayOf(clientID string) *net.UDPAddr {
 	return as[len(as)-1].Relay
 }
 
+// resolvePeers: a peer written "@c2" is the relayed address of client c2 at this moment (traffic
+// between two allocations of the same server; "@self" forms the loop through one's own relay).
+// An allocation that does not exist stands for a port of the relay IP nobody holds.
+func (w *SrvWorld) resolvePeers(op *Op) *Op {
+	at := func(s string) (string, bool) {
+		if !strings.HasPrefix(s, "@") {
+			return s, false
+		}
+		if r := w.relayOf(s[1:]); r != nil {
+			return ustr(r), true
+		}
+		return akey(w.Gen.IP4, 49000), true
+	}
+	p, changed := at(op.A.Peer)
+	var ps []string
+	for _, q := range op.A.Peers {
+		x, ch := at(q)
+		ps = append(ps, x)
+		changed = changed || ch
+	}
+	if !changed {
+		return op
+	}
+	o := *op
+	o.A.Peer, o.A.Peers = p, ps
+	return &o
+}
+
 func (w *SrvWorld) latencyFor(op *Op) int64 {
 	if c := w.Clients[op.Actor]; c != nil {
 		flow := w.Net.Name(c.Addr.IP, c.Addr.Port) + ">" + w.Net.Name(w.SrvAddr.IP, w.SrvAddr.Port)
@@ -546,7 +574,7 @@ func (w *SrvWorld) exec(op *Op) {
 	}
 	if c := w.Clients[op.Actor]; c != nil {
 		c.ensureConn()
-		c.Do(op)
+		c.Do(w.resolvePeers(op))
 		return
 	}
 	if p := w.Peers[op.Actor]; p != nil {
